@@ -48,8 +48,9 @@ func readOnlyRoots(p *Program) (roots []*ssa.Function, excluded []string) {
 		case strings.HasSuffix(pkg, "/validator/rules"), strings.HasSuffix(pkg, "/formatter"):
 			roots = append(roots, fn)
 		case strings.HasSuffix(pkg, "/validator"):
-			// the schema loader's private helpers are only reachable from the loader
-			if strings.HasPrefix(r.Name(), "validate") && r.Signature.Recv() == nil || r.Name() == "isCovariant" || r.Name() == "init" {
+			// the schema loader's private helpers (unexported functions of package validator that only the loader
+			// reaches) build the schema; they are not part of the read-only API
+			if r.Name() == "init" || loaderOnly(p)[r] {
 				continue
 			}
 			roots = append(roots, fn)
@@ -239,5 +240,47 @@ func c11PerCallState(c *Ctx, r *RuleResult, scope map[*ssa.Function]bool) {
 func fnInstrs(fn *ssa.Function) []ssa.Instruction {
 	var out []ssa.Instruction
 	allInstrs(fn, func(in ssa.Instruction) { out = append(out, in) })
+	return out
+}
+
+var loaderOnlyMemo map[*ssa.Function]bool
+
+// loaderOnly: unexported top-level functions of package validator reachable (statically) from the loader entry
+// points and from no other exported function or method of the package.
+func loaderOnly(p *Program) map[*ssa.Function]bool {
+	if loaderOnlyMemo != nil {
+		return loaderOnlyMemo
+	}
+	out := map[*ssa.Function]bool{}
+	var loaderRoots, otherRoots []*ssa.Function
+	for _, fn := range p.FuncsIn("validator") {
+		if fn.Parent() != nil || fn.Object() == nil {
+			continue
+		}
+		name := fn.Name()
+		switch {
+		case name == "LoadSchema" || name == "ValidateSchemaDocument":
+			loaderRoots = append(loaderRoots, fn)
+		case fn.Object().Exported() || fn.Signature.Recv() != nil:
+			otherRoots = append(otherRoots, fn)
+		}
+	}
+	for _, fn := range p.FuncsIn("validator/rules") {
+		otherRoots = append(otherRoots, fn)
+	}
+	fromLoader := p.reachableFrom(loaderRoots, nil)
+	fromOther := p.reachableFrom(otherRoots, nil)
+	for fn := range fromLoader {
+		if fn.Parent() != nil || fn.Object() == nil || fn.Object().Exported() || fn.Signature.Recv() != nil {
+			continue
+		}
+		if pk := p.PkgOf(fn); pk == nil || !strings.HasSuffix(pk.PkgPath, "/validator") {
+			continue
+		}
+		if !fromOther[fn] {
+			out[fn] = true
+		}
+	}
+	loaderOnlyMemo = out
 	return out
 }
